@@ -300,6 +300,8 @@ pub fn sidx(s: KeyState) -> usize {
         KeyState::Up => 0,
         KeyState::Down => 1,
         KeyState::SingleShot => 2,
+        #[allow(unreachable_patterns)]
+        _ => 2, // a state this harness does not know shares the one-shot cell
     }
 }
 pub fn sname(s: KeyState) -> &'static str {
@@ -307,6 +309,8 @@ pub fn sname(s: KeyState) -> &'static str {
         KeyState::Up => "Up",
         KeyState::Down => "Down",
         KeyState::SingleShot => "SingleShot",
+        #[allow(unreachable_patterns)]
+        _ => "OtherState",
     }
 }
 pub fn state_by_name(n: &str) -> Option<KeyState> {
